@@ -162,6 +162,13 @@ Definition spec_check (c : case) : bool :=
       else spec_nb k n m i j out
   end.
 
+(** the cases the theorems cover: integer types of at most 128 bits *)
+Definition in_scope (c : case) : Prop :=
+  match c with
+  | CSub w _ _ | CSup w _ _ => w <= 128
+  | _ => True
+  end.
+
 (** what the model computes on the input of a case (for replay files) *)
 Inductive shown :=
 | ShMasks (l : option (list N))
